@@ -229,32 +229,43 @@ fn rand_hz_list(r: &mut Rng, rate: f64, n: usize, st: &mut Stream) -> Vec<f64> {
     v
 }
 
-fn stream_osc(args: &Args) {
-    let mut st = Stream::new(&args.out, "osc");
-    let mut r = Rng::new(args.seed, "osc");
-    // --- probe of the known finding (every run): rate = 1e-300, hz = 1e300, both finite, hz/rate = +inf
-    {
-        let (rate, hz, n) = (1e-300f64, 1e300f64, 4usize);
-        let case = format!("osc const {} {} {}", raw(rate), raw(hz), n);
-        let obs = osc_const(rate, hz, n);
-        st.case(&case, &osc_obs_line(&obs), true, (4 * n) as u64);
-        st.count("probe:step-overflow");
-        match &obs { Some(o) => { osc_oracle(&mut st, &case, rate, &|_| hz, false, o); } None => st.oracle_fail("panic", &case, "frames", "panic") }
-    }
+fn gen_osc(st: &mut Stream, args: &Args, cf: &Cfg) {
+    let pre = cf.prefix;
+    let mut r = Rng::new(args.seed, &format!("{}osc", cf.tag));
     // --- documented examples (rate 4, hz 1)
     for &(rate, hz) in &[(4.0, 1.0), (44100.0, 440.0), (1.0, 0.0), (1.0, 1.0), (1.0, 2.5), (3.0, 1.0)] {
         let n = 24;
-        let case = format!("osc const {} {} {}", raw(rate), raw(hz), n);
+        let case = format!("{}osc const {} {} {}", pre, raw(rate), raw(hz), n);
         let obs = osc_const(rate, hz, n);
         st.case(&case, &osc_obs_line(&obs), hz != 0.0, (4 * n) as u64);
         st.count("fixed-example");
-        match &obs { Some(o) => { osc_oracle(&mut st, &case, rate, &|_| hz, false, o); } None => st.oracle_fail("panic", &case, "frames", "panic") }
+        match &obs { Some(o) => { osc_oracle(st, &case, rate, &|_| hz, false, o); } None => st.oracle_fail("panic", &case, "frames", "panic") }
     }
-    let ncases = if args.thorough() { 12000 } else { 1500 };
+    // --- short fixed variable-frequency examples (readable minimal cases)
+    for (rate, hz) in [(4.0, vec![1.0, 1.0, 2.0, 0.0, 6.0, 1.0, 3.0, 1.0]), (1.0, vec![0.25, 0.5, 2.5, 0.125, 0.0, 7.0, 0.75, 0.375]), (3.0, vec![1.0, 2.0, 4.0, 0.5, 0.1, 10.0])] {
+        for kind in [VarSrc::GenMut, VarSrc::FromIter] {
+            let mut case = format!("{}osc var {}", pre, raw(rate));
+            for h in &hz { case.push(' '); case.push_str(&raw(*h)); }
+            let obs = osc_var(rate, &hz, kind);
+            st.case(&case, &osc_obs_line(&obs), true, (4 * hz.len()) as u64);
+            st.count("fixed-example");
+            match &obs { Some(o) => { osc_oracle(st, &case, rate, &|i| hz[i], true, o); } None => st.oracle_fail("panic", &case, "frames", "panic") }
+        }
+    }
+    // --- probe of the known finding (every run): rate = 1e-300, hz = 1e300, both finite, hz/rate = +inf
+    {
+        let (rate, hz, n) = (1e-300f64, 1e300f64, 4usize);
+        let case = format!("{}osc const {} {} {}", pre, raw(rate), raw(hz), n);
+        let obs = osc_const(rate, hz, n);
+        st.case(&case, &osc_obs_line(&obs), true, (4 * n) as u64);
+        st.count("probe:step-overflow");
+        match &obs { Some(o) => { osc_oracle(st, &case, rate, &|_| hz, false, o); } None => st.oracle_fail("panic", &case, "frames", "panic") }
+    }
+    let ncases = (if args.thorough() { 12000 } else { 1500 }) / cf.div;
     let mut overflow_cases = 0;
     for _ in 0..ncases {
         let (rate, rl) = rand_rate(&mut r);
-        let n = r.range(20, 200) as usize;
+        let n = r.range(20, cf.max_n) as usize;
         if r.chance(1, 2) {
             let (mut hz, hl) = rand_hz(&mut r, rate);
             if !(hz / rate).is_finite() {
@@ -262,50 +273,49 @@ fn stream_osc(args: &Args) {
                 if overflow_cases >= 3 { hz = 0.0; } else { overflow_cases += 1; st.count("step-overflow-case"); }
             }
             st.count("kind:const"); st.count(rl); st.count(hl);
-            let case = format!("osc const {} {} {}", raw(rate), raw(hz), n);
+            let case = format!("{}osc const {} {} {}", pre, raw(rate), raw(hz), n);
             let obs = osc_const(rate, hz, n);
             st.case(&case, &osc_obs_line(&obs), hz != 0.0, (4 * n) as u64);
-            match &obs { Some(o) => { osc_oracle(&mut st, &case, rate, &|_| hz, false, o); } None => st.oracle_fail("panic", &case, "frames", "panic") }
+            match &obs { Some(o) => { osc_oracle(st, &case, rate, &|_| hz, false, o); } None => st.oracle_fail("panic", &case, "frames", "panic") }
         } else {
-            let mut hz = rand_hz_list(&mut r, rate, n, &mut st);
+            let mut hz = rand_hz_list(&mut r, rate, n, st);
             for h in hz.iter_mut() { if !(*h / rate).is_finite() { *h = 0.0; } }
             let kind = if r.chance(1, 2) { VarSrc::GenMut } else { VarSrc::FromIter };
             st.count("kind:var"); st.count(rl); st.count(if kind == VarSrc::GenMut { "src:gen_mut" } else { "src:from_iter" });
-            let mut case = format!("osc var {}", raw(rate));
+            let mut case = format!("{}osc var {}", pre, raw(rate));
             for h in &hz { case.push(' '); case.push_str(&raw(*h)); }
             let obs = osc_var(rate, &hz, kind);
             st.case(&case, &osc_obs_line(&obs), hz.iter().any(|h| *h != 0.0), (4 * n) as u64);
             let short = if case.len() > 600 { format!("{}…", &case[..600]) } else { case.clone() };
-            match &obs { Some(o) => { osc_oracle(&mut st, &short, rate, &|i| hz[i], true, o); } None => st.oracle_fail("panic", &short, "frames", "panic") }
+            match &obs { Some(o) => { osc_oracle(st, &short, rate, &|i| hz[i], true, o); } None => st.oracle_fail("panic", &short, "frames", "panic") }
         }
     }
     // --- long native runs (oracles only, no model): tiny steps, steps >= 1, non-dyadic
     let long_n: usize = if args.thorough() { 100_000 } else { 20_000 };
-    let long_cases: usize = if args.thorough() { 60 } else { 6 };
+    let long_cases: usize = if !cf.long { 0 } else if args.thorough() { 60 } else { 6 };
     for k in 0..long_cases {
         let (rate, _) = if k < 3 { (44100.0, "") } else { rand_rate(&mut r) };
         let hz = match k { 0 => 440.0, 1 => 44100.0 * 1e-9, 2 => 44100.0 * 7.3, _ => { let h = rand_hz(&mut r, rate).0; if (h / rate).is_finite() { h } else { 0.0 } } };
         let case = format!("(native long run) osc const {} {} {}", raw(rate), raw(hz), long_n);
         st.count("native-long-run");
-        match osc_const(rate, hz, long_n) { Some(o) => { osc_oracle(&mut st, &case, rate, &|_| hz, false, &o); } None => st.oracle_fail("panic", &case, "frames", "panic") }
+        match osc_const(rate, hz, long_n) { Some(o) => { osc_oracle(st, &case, rate, &|_| hz, false, &o); } None => st.oracle_fail("panic", &case, "frames", "panic") }
         // varying frequency
-        let hzs = rand_hz_list(&mut r, rate, long_n, &mut st).into_iter().map(|h| if (h / rate).is_finite() { h } else { 0.0 }).collect::<Vec<_>>();
+        let hzs = rand_hz_list(&mut r, rate, long_n, st).into_iter().map(|h| if (h / rate).is_finite() { h } else { 0.0 }).collect::<Vec<_>>();
         let case = format!("(native long run) osc var {} <{} frames, seed {}, run {}>", raw(rate), long_n, args.seed, k);
-        match osc_var(rate, &hzs, VarSrc::GenMut) { Some(o) => { osc_oracle(&mut st, &case, rate, &|i| hzs[i], true, &o); } None => st.oracle_fail("panic", &case, "frames", "panic") }
+        match osc_var(rate, &hzs, VarSrc::GenMut) { Some(o) => { osc_oracle(st, &case, rate, &|i| hzs[i], true, &o); } None => st.oracle_fail("panic", &case, "frames", "panic") }
     }
     st.note("oracles per frame: phase == running x-floor(x) sum, 0<=phase<1, sine == sin(2*pi*phase) in [-1,1], saw == 1-2*phase in [-1,1], square by half-cycle; per var case: pulls == frames for each of the 4 oscillators");
-    st.finish();
 }
 
 // ------------------------------------------------------------------------------------------
 // noise
 
-fn stream_noise(args: &Args) {
-    let mut st = Stream::new(&args.out, "noise");
-    let mut r = Rng::new(args.seed, "noise");
+fn gen_noise(st: &mut Stream, args: &Args, cf: &Cfg) {
+    let pre = cf.prefix;
+    let mut r = Rng::new(args.seed, &format!("{}noise", cf.tag));
     let mut seeds: Vec<u64> = vec![0, 1, 2, 1 << 13, 1 << 31, 1 << 32, (1 << 32) + 1, 1 << 51, 1 << 63, (1 << 63) - 1, (1 << 63) + 1,
         u64::MAX, u64::MAX - 1, u64::MAX - 2, u64::MAX - 3, u64::MAX - 19, u64::MAX - 20, u64::MAX - 100, u64::MAX - 199, 0x7fff_ffff, 0x8000_0000, 0xffff_ffff];
-    let ncases = if args.thorough() { 6000 } else { 600 };
+    let ncases = (if args.thorough() { 6000 } else { 600 }) / cf.div;
     while seeds.len() < ncases {
         let s = match r.below(5) {
             0 => u64::MAX - r.below(400),
@@ -316,8 +326,8 @@ fn stream_noise(args: &Args) {
         seeds.push(s);
     }
     for (ci, &seed) in seeds.iter().enumerate() {
-        let n = if ci < 22 { 64 } else { r.range(20, 200) as usize };
-        let case = format!("noise {} {}", seed, n);
+        let n = if ci < 22 { 64 } else { r.range(20, cf.max_n) as usize };
+        let case = format!("{}noise {} {}", pre, seed, n);
         let wraps = (seed as u128) + (n as u128) > u64::MAX as u128;
         st.count(if wraps { "seed:wraps-in-run" } else if seed < (1 << 32) { "seed:<2^32" } else { "seed:>=2^32" });
         let obs = guarded(|| { let mut s = signal::noise(seed); (0..n).map(|_| s.next()).collect::<Vec<f64>>() });
@@ -359,7 +369,7 @@ fn stream_noise(args: &Args) {
     }
     // long native runs: range only
     let long_n: usize = if args.thorough() { 1_000_000 } else { 100_000 };
-    for &seed in &[0u64, u64::MAX - 50_000, 1 << 40] {
+    for &seed in [0u64, u64::MAX - 50_000, 1 << 40].iter().filter(|_| cf.long) {
         let case = format!("(native long run) noise {} {}", seed, long_n);
         st.count("native-long-run");
         match guarded(|| { let mut s = signal::noise(seed); (0..long_n).map(|_| s.next()).fold((f64::INFINITY, f64::NEG_INFINITY, false), |(lo, hi, bad), x| (lo.min(x), hi.max(x), bad || !(x >= -1.0 && x <= 1.0))) }) {
@@ -371,7 +381,6 @@ fn stream_noise(args: &Args) {
         }
     }
     st.note(if cfg!(debug_assertions) { "built with overflow checks (dev profile): the seed increment must wrap, not panic" } else { "release profile (wrapping arithmetic)" });
-    st.finish();
 }
 
 // ------------------------------------------------------------------------------------------
@@ -416,22 +425,32 @@ fn sim_oracle(st: &mut Stream, case: &str, rate: f64, hz: &dyn Fn(usize) -> f64,
     mx
 }
 
-fn stream_simplex(args: &Args) {
-    let mut st = Stream::new(&args.out, "simplex");
-    let mut r = Rng::new(args.seed, "simplex");
+fn gen_simplex(st: &mut Stream, args: &Args, cf: &Cfg) {
+    let pre = cf.prefix;
+    let mut r = Rng::new(args.seed, &format!("{}simplex", cf.tag));
     let mut mx = 0.0f64;
+    for (rate, hz) in [(1.0, vec![0.5; 24]), (2.0, vec![313.0, 0.0, 0.5, 1.0, 3.0, 131072.0, 1.0, 0.25]), (4.0, vec![1.0, 1.0, 2.0, 0.0, 6.0, 1.0, 3.0, 1.0])] {
+        for kind in [VarSrc::GenMut, VarSrc::FromIter] {
+            let mut case = format!("{}simplex var {}", pre, raw(rate));
+            for h in &hz { case.push(' '); case.push_str(&raw(*h)); }
+            let obs = sim_var(rate, &hz, kind);
+            st.case(&case, &sim_line(&obs), true, hz.len() as u64);
+            st.count("fixed-example");
+            match &obs { Some(o) => { mx = mx.max(sim_oracle(st, &case, rate, &|i| hz[i], true, o)); } None => st.oracle_fail("panic", &case, "frames", "panic") }
+        }
+    }
     {
         let (rate, hz, n) = (1e-300f64, 1e300f64, 4usize);
-        let case = format!("simplex const {} {} {}", raw(rate), raw(hz), n);
+        let case = format!("{}simplex const {} {} {}", pre, raw(rate), raw(hz), n);
         let obs = sim_const(rate, hz, n);
         st.case(&case, &sim_line(&obs), true, n as u64);
         st.count("probe:step-overflow");
-        match &obs { Some(o) => { sim_oracle(&mut st, &case, rate, &|_| hz, false, o); } None => st.oracle_fail("panic", &case, "frames", "panic") }
+        match &obs { Some(o) => { sim_oracle(st, &case, rate, &|_| hz, false, o); } None => st.oracle_fail("panic", &case, "frames", "panic") }
     }
-    let ncases = if args.thorough() { 12000 } else { 1500 };
+    let ncases = (if args.thorough() { 12000 } else { 1500 }) / cf.div;
     for ci in 0..ncases {
         let (rate, rl) = rand_rate(&mut r);
-        let n = r.range(20, 200) as usize;
+        let n = r.range(20, cf.max_n) as usize;
         let pick = if ci < 2 { ci as u64 } else { r.below(4) };
         if pick < 2 {
             // constant frequency; for simplex the interesting steps are O(0.01 .. 1000) periods per frame
@@ -444,43 +463,55 @@ fn stream_simplex(args: &Args) {
                 } };
             let hz = if hz.is_finite() && hz >= 0.0 && (hz / rate).is_finite() { hz } else { 0.0 };
             st.count("kind:const"); st.count(rl);
-            let case = format!("simplex const {} {} {}", raw(rate), raw(hz), n);
+            let case = format!("{}simplex const {} {} {}", pre, raw(rate), raw(hz), n);
             let obs = sim_const(rate, hz, n);
             st.case(&case, &sim_line(&obs), hz != 0.0, n as u64);
-            match &obs { Some(o) => { mx = mx.max(sim_oracle(&mut st, &case, rate, &|_| hz, false, o)); } None => st.oracle_fail("panic", &case, "frames", "panic") }
+            match &obs { Some(o) => { mx = mx.max(sim_oracle(st, &case, rate, &|_| hz, false, o)); } None => st.oracle_fail("panic", &case, "frames", "panic") }
         } else {
-            let mut hz = rand_hz_list(&mut r, rate, n, &mut st);
+            let mut hz = rand_hz_list(&mut r, rate, n, st);
             if r.chance(1, 2) { for h in hz.iter_mut() { *h *= 64.0; } st.count("var:x64"); }
             for h in hz.iter_mut() { if !(h.is_finite() && (*h / rate).is_finite()) { *h = 0.0; } }
             let kind = if r.chance(1, 2) { VarSrc::GenMut } else { VarSrc::FromIter };
             st.count("kind:var"); st.count(rl);
-            let mut case = format!("simplex var {}", raw(rate));
+            let mut case = format!("{}simplex var {}", pre, raw(rate));
             for h in &hz { case.push(' '); case.push_str(&raw(*h)); }
             let obs = sim_var(rate, &hz, kind);
             st.case(&case, &sim_line(&obs), hz.iter().any(|h| *h != 0.0), n as u64);
             let short = if case.len() > 600 { format!("{}…", &case[..600]) } else { case.clone() };
-            match &obs { Some(o) => { mx = mx.max(sim_oracle(&mut st, &short, rate, &|i| hz[i], true, o)); } None => st.oracle_fail("panic", &short, "frames", "panic") }
+            match &obs { Some(o) => { mx = mx.max(sim_oracle(st, &short, rate, &|i| hz[i], true, o)); } None => st.oracle_fail("panic", &short, "frames", "panic") }
         }
     }
     // long native runs: dense sweeps through all 65536 lattice cells (range oracle only)
     let long_n: usize = if args.thorough() { 1_000_000 } else { 140_000 };
     let steps: Vec<f64> = if args.thorough() { vec![0.5, 0.25, 1.0 / 3.0, 0.01, 440.0 / 44100.0, 0.4999, 17.37, 0.0625, 1e-4, 123.456] } else { vec![0.5, 440.0 / 44100.0, 17.37] };
-    for step in steps {
+    for step in steps.into_iter().filter(|_| cf.long) {
         let rate = 44100.0; let hz = rate * step;
         let case = format!("(native long run) simplex const {} {} {}", raw(rate), raw(hz), long_n);
         st.count("native-long-run");
-        match sim_const(rate, hz, long_n) { Some(o) => { mx = mx.max(sim_oracle(&mut st, &case, rate, &|_| hz, false, &o)); } None => st.oracle_fail("panic", &case, "frames", "panic") }
+        match sim_const(rate, hz, long_n) { Some(o) => { mx = mx.max(sim_oracle(st, &case, rate, &|_| hz, false, &o)); } None => st.oracle_fail("panic", &case, "frames", "panic") }
     }
     st.note(&format!("largest |simplex output| observed on this run: {:.17} (exact-arithmetic bound proved: 0.99984375)", mx));
-    st.finish();
 }
+
+struct Cfg { prefix: &'static str, tag: &'static str, div: usize, long: bool, max_n: i64 }
+const MAIN: Cfg = Cfg { prefix: "", tag: "", div: 1, long: true, max_n: 200 };
+/// the same generators, fewer and shorter cases, addressed to the soft-float instance of the model
+const FP: Cfg = Cfg { prefix: "fp ", tag: "fp-", div: 6, long: false, max_n: 80 };
 
 fn main() {
     let args = Args::parse();
+    let mut st = Stream::new(&args.out, &args.stream);
     match args.stream.as_str() {
-        "osc" => stream_osc(&args),
-        "noise" => stream_noise(&args),
-        "simplex" => stream_simplex(&args),
+        "osc" => gen_osc(&mut st, &args, &MAIN),
+        "noise" => gen_noise(&mut st, &args, &MAIN),
+        "simplex" => gen_simplex(&mut st, &args, &MAIN),
+        "fp" => {
+            gen_osc(&mut st, &args, &FP);
+            gen_simplex(&mut st, &args, &FP);
+            gen_noise(&mut st, &args, &FP);
+            st.note("same requests as osc/simplex/noise, executed by the driver at the soft-float (exact-rational IEEE) instance fpArith of the model - validates the instance the fp_ theorems are about");
+        }
         s => { eprintln!("unknown stream {}", s); std::process::exit(2); }
     }
+    st.finish();
 }
